@@ -56,7 +56,9 @@ func TestC03(t *testing.T) {
 	}
 	run.SetRule("random workloads as for C02 with a graceful shutdown requested at a random step (idle syncer, waiting on its timer, " +
 		"inside a data sync, inside a state write, with uploads allocated / copied / not yet finalized) and driven to completion; " +
-		"read-back from the medium after ProcessBlockPut returned false and after every completed commit without intervening writes; " +
+		"the final data sync fails up to 3 times in a quarter of the cases; read-back from the medium after ProcessBlockPut returned false " +
+		"(process exit, and power loss dropping every unsynchronised data sector) and after every completed commit without intervening writes; " +
+		"NotifySyncCompleted must be preceded by a successful device Sync since NotifySyncStarting; " +
 		"a case is non-trivial when >= 2 uploads were acknowledged and it has >= 12 steps")
 
 	if name, script := run.ReplayScript(); script != nil {
